@@ -262,11 +262,14 @@ def finish(mod, pid, tier, seed, results, lost, wall):
     reach = {}
     for r in results:
         for k, v in r['reach'].items():
-            e = reach.setdefault(k, {'calls': 0, 'lines_hit': set(), 'lines_total': v['lines_total']})
+            e = reach.setdefault(k, {'calls': 0, 'lines_hit': set(), 'lines_total': v['lines_total'],
+                                     'lines_all': v.get('lines_all', [])})
             e['calls'] += v['calls']
             e['lines_hit'].update(v['lines_hit'])
     reach_out = {k: {'calls': v['calls'], 'lines_hit': len(v['lines_hit']),
-                     'lines_total': v['lines_total']} for k, v in sorted(reach.items())}
+                     'lines_total': v['lines_total'],
+                     'lines_never_executed': [ln for ln in v['lines_all'] if ln not in v['lines_hit']]}
+                 for k, v in sorted(reach.items())}
     known_hits = collections.Counter()
     known_examples = {}
     for r in results:
